@@ -16,13 +16,16 @@
 (***************************************************************************)
 EXTENDS Integers, Sequences, FiniteSets, TLC, Json
 
-CONSTANT MaxLen
+CONSTANTS MaxLen, MaxPresents
 
 Vals  == {"a", "b"}
-\* what the presented Response (and its bearer confirmation) says it answers
-Kinds == {"answers",   \* the one outstanding request
-          "other",     \* an ID that is not outstanding
-          "absent"}    \* nothing: no InResponseTo at either level
+\* what the presented message says it answers, at the Response level and in its bearer confirmation ("r/c"):
+\* the one outstanding request ("answers"), an ID that is not outstanding ("other"), nothing ("absent": no
+\* InResponseTo attribute; "noconf": the assertion has no SubjectConfirmation at all)
+RespK == {"answers", "other", "absent"}
+ConfK == {"answers", "other", "noconf"}
+Kinds == { r \o "/" \o c : r \in RespK, c \in ConfK }
+Solicited(k) == k \in {"answers/answers", "answers/noconf"}
 
 VARIABLES allow,   \* value -> AllowIDPInitiated ("on" / "off"), "none" while the value does not exist
           hist
@@ -34,9 +37,10 @@ Init == /\ allow \in { [a |-> x, b |-> "none"] : x \in Flags }
 
 \* the statement: without the opt-in only a response to an outstanding request is accepted; the opted-in SP of this
 \* library does not examine InResponseTo at all
-Verdict(v, k) == IF k = "answers" \/ allow[v] = "on" THEN "accept" ELSE "reject"
+Verdict(v, k) == IF Solicited(k) \/ allow[v] = "on" THEN "accept" ELSE "reject"
 
 Present(v, k) == /\ allow[v] # "none"
+                 /\ Cardinality({ i \in DOMAIN hist : hist[i].n = "present" }) < MaxPresents
                  /\ hist' = Append(hist, [n |-> "present", v |-> v, f |-> allow[v], k |-> k, r |-> Verdict(v, k)])
                  /\ UNCHANGED allow
 Assign(v, f)  == /\ allow[v] # "none" /\ allow[v] # f
@@ -54,7 +58,7 @@ Next == /\ Len(hist) <= MaxLen
 Spec == Init /\ [][Next]_vars
 
 \* every predicted acceptance is licensed by the validating value's own flag at that moment
-OwnFlagDecides == \A i \in DOMAIN hist : hist[i].n = "present" /\ hist[i].r = "accept" => hist[i].k = "answers" \/ hist[i].f = "on"
+OwnFlagDecides == \A i \in DOMAIN hist : hist[i].n = "present" /\ hist[i].r = "accept" => Solicited(hist[i].k) \/ hist[i].f = "on"
 \* worth replaying: ends in a presentation, and something was presented before a change (copy / assign)
 Interesting == /\ hist[Len(hist)].n = "present"
                /\ \E i, j \in DOMAIN hist : i < j /\ hist[i].n = "present" /\ hist[j].n \in {"copy", "assign"}
